@@ -1301,13 +1301,23 @@ impl<'l> CelCompiler<'l> {
             Some(TokenWithLoc {
                 token: Token::IntLit(val),
                 loc,
-            }) => Ok((
-                CompiledProg::with_const((val as i64).into()),
-                AstNode::new(
-                    Primary::Literal(LiteralsAndKeywords::IntegerLit(val as i64)),
-                    loc,
-                ),
-            )),
+            }) => {
+                // the tokenizer scans the magnitude as u64; an int literal must fit i64
+                let val = i64::try_from(val).map_err(|_| {
+                    CelError::syntax(
+                        SyntaxError::from_location(loc.start())
+                            .with_message(format!("Integer literal {} is out of range", val)),
+                    )
+                })?;
+
+                Ok((
+                    CompiledProg::with_const(val.into()),
+                    AstNode::new(
+                        Primary::Literal(LiteralsAndKeywords::IntegerLit(val)),
+                        loc,
+                    ),
+                ))
+            }
             Some(TokenWithLoc {
                 token: Token::FloatLit(val),
                 loc,
